@@ -371,7 +371,7 @@ impl RunOpts {
             mode,
             log_stmts: false,
             persistent_cap: 256 * MEBI,
-            frame_cap: 64 * MEBI,
+            frame_cap: 256 * MEBI,
             policy: HostPolicy { allow_process: false, ..HostPolicy::default() },
         }
     }
